@@ -5,7 +5,8 @@ import os
 import vf
 from checks import ingressfam as ing
 
-RULE = ("MC: every row of the auth-material tables of IngressMC (P basic, H HMAC, F forward auth) is an initial state and satisfies "
+RULE = ("MC: every row of the auth-material tables of IngressMC (P basic, H HMAC, F forward auth, X two routes with different auth kinds "
+        "and the material of either) is an initial state and satisfies "
         "the design-level facts of Ingress.tla (accepted => authentic: configured user with exactly its password / all three "
         "headers, timestamp within tolerance, signature under a secret valid at the signed timestamp / auth service 2xx; every "
         "other row 401, 403 or 503 with zero enqueued). GEN: TLC prints every configuration (header names, tolerance, static "
@@ -19,7 +20,7 @@ RULE = ("MC: every row of the auth-material tables of IngressMC (P basic, H HMAC
 
 
 def _delta_class(cfg, c):
-    tol = cfg[0]["auth"]["tol"] * 1000
+    tol = max(rt["auth"]["tol"] for rt in cfg) * 1000
     d = c["now"] - c["ts"] * 1000
     if c["tsf"] != "int":
         return "unparsable"
@@ -52,18 +53,27 @@ def row_classes(table):
 def run(ctx):
     vf.build_tool(ing.TOOL)
     full = not ctx.quick
-    per = 2 if ctx.quick else 6
-    table = ing.mc_and_gen(ctx, [("P", ["P"], (0,), False), ("H", ["H"], (0,), full), ("F", ["F"], (0,), False)])
+    per = 2 if ctx.quick else 4
+    table = ing.mc_and_gen(ctx, [("P", ["P"], (0,), False), ("H", ["H"], (0,), full), ("F", ["F"], (0,), False), ("X", ["X"], (0,), False)])
     tp = os.path.join(ctx.scratch, "table-c08.ndjson")
     ing.write_table(tp, table)
     nrows = sum(len(o["reqs"]) for o in table)
     ctx.count("table_configs", len(table))
     ctx.count("table_rows", nrows)
-    info = ing.execute(ctx, tp, "c08", per, ctx.seed, shards=min(vf.NCPU, len(table)))
-    if info["configs"] != len(table) or info["rows"] != nrows or info["events"] != nrows * per:
-        raise vf.Infra("executed %s, table has %d configurations / %d rows x %d" % (info, len(table), nrows, per))
-    ing.require(ctx, info["fwd_hits"] > 0, "the scripted auth service was never called")
-    res, cov = ing.validate(ctx, info["files"], "c08")
+    # thorough: a second concretisation of every configuration (other header names, secrets, passwords, paths)
+    seeds = [ctx.seed] if ctx.quick else [ctx.seed, ctx.seed + 1000]
+    res, files, cov, nevents, hits = [], [], {}, 0, 0
+    for i, sd in enumerate(seeds):
+        info = ing.execute(ctx, tp, "c08-%d" % i, per, sd, shards=min(vf.NCPU, len(table)))
+        if info["configs"] != len(table) or info["rows"] != nrows or info["events"] != nrows * per:
+            raise vf.Infra("executed %s, table has %d configurations / %d rows x %d" % (info, len(table), nrows, per))
+        r, c = ing.validate(ctx, info["files"], "c08-%d" % i)
+        ing.add_cov(cov, c)
+        res += r
+        files += info["files"]
+        nevents += info["events"]
+        hits += info["fwd_hits"]
+    ing.require(ctx, hits > 0, "the scripted auth service was never called")
     ctx.cov["counters"]["coverage"] = cov
 
     # ---- non-vacuity: every class of the statement's table was executed (all rows are; the classes must be in the table)
@@ -90,7 +100,7 @@ def run(ctx):
             ing.require(ctx, cov["acc"][kind] > 0, "no accepted request with %s auth" % kind)
             ing.require(ctx, cov["rej"][kind] > 0, "no rejected request with %s auth" % kind)
 
-    got = ing.sample_events(info["files"], {
+    got = ing.sample_events(files, {
         "hmac accepted": lambda e: e["req"]["cred"]["k"] == "hmac" and 200 <= e["obs"]["status"] < 300 and e["k"] > 0,
         "hmac rejected (configured secret not valid at the signed timestamp)":
             lambda e: e["req"]["cred"]["k"] == "hmac" and e["obs"]["status"] == 401 and e["req"]["cred"]["sigc"] == "ok"
@@ -101,7 +111,7 @@ def run(ctx):
     for k in sorted(got):
         ctx.sample({"kind": k, **got[k]})
     ctx.assumptions += [
-        "exhaustive over the abstract tables of IngressMC (constants in mc_runs); the concrete requests are %d seeded representatives per row" % per,
+        "exhaustive over the abstract tables of IngressMC (constants in mc_runs); the concrete requests are %d seeded representatives per row" % (per * len(seeds)),
         "quick tier: header-presence combinations other than all-present are crossed with clock offset 0 only (thorough: with every offset)",
         "memory queue backend; in-process production handler (app.VerifBoot); HMAC clock = VerifOptions.Now",
         "tolerance edges are inclusive (|now - ts| <= tolerance is 'within the tolerance'); sub-second clock offsets are used",
@@ -109,7 +119,7 @@ def run(ctx):
         "classes whose reading is open are not emitted: upper-case hex signatures, blanks around header values, '+'-prefixed timestamps",
         "a password written as a secret reference (auth basic \"u\" \"env:VAR\", as in docs/ingress.md and docs/security.md) means the referenced value",
         "the accepted status is any 2xx (the statement does not fix it)"]
-    vf.write_evidence(ctx, "model_checking", RULE, extra={"evaluations": info["events"], "distinct_nontrivial": nrows}, exhaustive=True)
+    vf.write_evidence(ctx, "model_checking", RULE, extra={"evaluations": nevents, "distinct_nontrivial": nrows}, exhaustive=True)
 
 
 def replay(ctx, path):
